@@ -92,6 +92,11 @@ def body(ctx, conv, nk, positive, order, dpos, two_depths, via, holes):
     variables['eta'] = (('t',) + tuple(sdims), eta)
     coords = {'zc': (('k',), z, {'positive': positive, 'long_name': 'depth'}),
               'time': (('t',), numpy.array([0.0, 1.0]), {'long_name': 'time'})}
+    if via == 'convention':
+        # decoded time coordinate, as xarray hands it over (Convention.time_coordinate looks for exactly this)
+        tv = xarray.Variable(('t',), numpy.array(['2000-01-01', '2000-01-02'], dtype='datetime64[ns]'), {'long_name': 'time'})
+        tv.encoding['units'] = 'days since 1990-01-01 00:00:00'
+        coords['time'] = tv
     depth_names = ['zc']
     if two_depths == 'same_dim':
         # a second coordinate for the same layers with the opposite sign convention (e.g. depth and height)
@@ -109,12 +114,21 @@ def body(ctx, conv, nk, positive, order, dpos, two_depths, via, holes):
         coords['zsed'] = (('k2',), z2, {'positive': positive})
         depth_names.append('zsed')
     ds = base.assign({n: xarray.Variable(*v) for n, v in variables.items()}).assign_coords(
-        {n: xarray.Variable(*v) for n, v in coords.items()})
+        {n: (v if isinstance(v, xarray.Variable) else xarray.Variable(*v)) for n, v in coords.items()})
     ctx.note('config', dict(conv=conv, nk=nk, positive=positive, order=order, dpos=dpos, two=two_depths))
 
     with warnings.catch_warnings():
         warnings.simplefilter('ignore')
-        out = depth_ops.ocean_floor(ds, depth_names, non_spatial_variables=['time'])
+        if via == 'convention':
+            # the alias on the convention finds every depth coordinate and the time coordinate by itself
+            from emsarray.conventions.grid import CFGrid1D
+            from emsarray.conventions.shoc import ShocStandard
+            from emsarray.conventions.ugrid import UGrid
+            cv = {'cf1d': CFGrid1D, 'shoc_standard': ShocStandard, 'ugrid': UGrid}[conv](ds)
+            ctx.check({str(c.name) for c in cv.depth_coordinates} == set(depth_names), 'every depth coordinate of the dataset is found')
+            out = cv.ocean_floor()
+        else:
+            out = depth_ops.ocean_floor(ds, depth_names, non_spatial_variables=['time'])
 
     ctx.check('k' not in out.dims and 'zc' not in out.variables, 'depth dimension and its coordinate are removed')
     if two_depths == 'same_dim':
@@ -182,6 +196,12 @@ def cases(tier):
                 yield Case(f'{conv}:{positive}:{order}:dpos{dpos}:nk{nk}:two{two if isinstance(two, str) else int(two)}:holes{int(holes)}', body,
                            dict(conv=conv, nk=nk, positive=positive, order=order, dpos=dpos, two_depths=two, via='function', holes=holes),
                            patches=depthcommon.patches, max_paths=20000, split=16)
+    for conv, two, positive in (('cf1d', True, 'down'), ('shoc_standard', 'same_dim', 'up'), ('ugrid', True, 'up'), ('cf1d', False, 'up')):
+        if q and conv == 'shoc_standard':
+            continue
+        yield Case(f'{conv}:{positive}:deep_first:dpos1:nk2:two{two if isinstance(two, str) else int(two)}:holes0:convention', body,
+                   dict(conv=conv, nk=2, positive=positive, order='deep_first', dpos=1, two_depths=two, via='convention', holes=False),
+                   patches=depthcommon.patches, max_paths=20000, split=16)
     yield Case('plain:DOWN:shallow_first:dpos0:nk3:two0:holes0', body,
                dict(conv='plain', nk=3, positive='DOWN', order='shallow_first', dpos=0, two_depths=False, via='function', holes=False),
                patches=depthcommon.patches, max_paths=20000, split=16)
